@@ -5,8 +5,15 @@ import (
 )
 
 func LadnToModels(buf []uint8) (dnnValues []string) {
-	for bufOffset := 1; bufOffset < len(buf); {
+	// TS 24.501 9.11.3.29: the LADN indication contents are a sequence of DNNs, each a length octet
+	// followed by that many octets of DNN value.
+	for bufOffset := 0; bufOffset < len(buf); {
 		lenOfDnn := int(buf[bufOffset])
+		bufOffset++
+		if bufOffset+lenOfDnn > len(buf) {
+			// truncated last entry: ignore it
+			break
+		}
 		dnn := string(buf[bufOffset : bufOffset+lenOfDnn])
 		dnnValues = append(dnnValues, dnn)
 		bufOffset += lenOfDnn
